@@ -710,7 +710,82 @@ def fam_alias695(r, n):
     return lines
 
 
+def fam_inheritance(r, n):
+    """Multiple inheritance, diamonds, several generic bases, builtin subclasses, ABCs, metaclasses."""
+    lines = ["import abc", "import collections.abc", "from typing import Dict, Generic, Iterator, List, Mapping, Sequence, Sized, TypeVar", "",
+             "KT = TypeVar(\"KT\")", "VT = TypeVar(\"VT\")", ""]
+    T = r.choice(["int", "str", "bytes"])
+    U = r.choice(["int", "str", "bytes"])
+    lit = TYPED_EXPR
+    kind = r.below(7)
+    if kind == 0:
+        order = r.sample(["Left", "Right"], 2)
+        lines += ["class Top:", "    def who(self) -> %s:" % T, "        return %s" % lit[T], "    shared = %s" % lit[T], "",
+                  "class Left(Top):", "    def who(self) -> %s:" % T, "        return %s" % lit[T], "    only_left = 1", "",
+                  "class Right(Top):", "    shared = %s" % lit[U], "    only_right = \"r\"", "",
+                  "class Bottom(%s):" % ", ".join(order), "    pass", "",
+                  "def dia_%d(b: Bottom) -> None:" % n, "    reveal_type(b.who())", "    reveal_type(b.shared)", "    reveal_type(b.only_left)", "    reveal_type(b.only_right)", "    b.nothing", ""]
+    elif kind == 1:
+        lines += ["class Registry(Mapping[str, %s], Sized):" % T, "    def __getitem__(self, key: str) -> %s:" % T, "        return %s" % lit[T], "    def __iter__(self) -> Iterator[str]:", "        return iter(())",
+                  "    def __len__(self) -> int:", "        return 0", "",
+                  "def reg_%d(g: Registry) -> None:" % n, "    reveal_type(g[\"k\"])", "    reveal_type(g.get(\"k\"))", "    reveal_type(list(g.items()))", "    reveal_type(len(g))", "    g[1]",
+                  "    m: Mapping[str, %s] = g" % U, "    s: Sized = g", "    print(m, s)", ""]
+    elif kind == 2:
+        lines += ["class Pairs(Generic[KT, VT], Dict[KT, List[VT]]):", "    def add(self, k: KT, v: VT) -> None:", "        self.setdefault(k, []).append(v)", "",
+                  "def pairs_%d(p: Pairs[%s, %s]) -> None:" % (n, T, U), "    reveal_type(p)", "    reveal_type(p[%s])" % lit[T], "    p.add(%s, %s)" % (lit[U], lit[T]), "    reveal_type(p.get(%s))" % lit[T], ""]
+    elif kind == 3:
+        lines += ["class IntList(List[%s]):" % T, "    def total(self) -> %s:" % T, "        return self[0]", "", "class Names(dict):", "    pass", "",
+                  "def sub_%d(xs: IntList, d: Names) -> None:" % n, "    reveal_type(xs[0])", "    reveal_type(xs.total())", "    xs.append(%s)" % lit[U], "    reveal_type(d[\"k\"])", "    reveal_type(sorted(xs))", "    seq: Sequence[%s] = xs" % U, "    print(seq)", ""]
+    elif kind == 4:
+        lines += ["class Shape(abc.ABC):", "    @abc.abstractmethod", "    def area(self) -> %s: ..." % T, "    def describe(self) -> str:", "        return \"shape\"", "",
+                  "class Named:", "    name: %s = %s" % (U, lit[U]), "    def describe(self) -> int:", "        return 1", "",
+                  "class Square(%s):" % ", ".join(r.sample(["Shape", "Named"], 2)), "    def area(self) -> %s:" % T, "        return %s" % lit[T], "",
+                  "def sq_%d(s: Square) -> None:" % n, "    reveal_type(s.area())", "    reveal_type(s.describe())", "    reveal_type(s.name)", "    Shape()", ""]
+    elif kind == 5:
+        lines += ["class Meta(type):", "    def __call__(cls, *args: object, **kwargs: object):", "        return super().__call__(*args, **kwargs)", "    registry: Dict[str, type] = {}", "",
+                  "class Plugin(metaclass=Meta):", "    def __init_subclass__(cls, tag: str = \"x\", **kwargs: object) -> None:", "        super().__init_subclass__(**kwargs)", "    def run(self, x: %s) -> %s:" % (T, U), "        return %s" % lit[U], "",
+                  "class Fast(Plugin, tag=\"fast\"):", "    pass", "",
+                  "def plug_%d(p: Fast) -> None:" % n, "    reveal_type(p.run(%s))" % lit[T], "    p.run(%s, 1)" % lit[U], "    reveal_type(Fast.registry)", "    reveal_type(Fast())", ""]
+    else:
+        lines += ["class A1:", "    def m(self) -> %s:" % T, "        return %s" % lit[T], "", "class A2:", "    def m(self) -> %s:" % U, "        return %s" % lit[U], "", "class A3:", "    def m(self) -> bytes:", "        return b\"\"", "",
+                  "class Multi(%s):" % ", ".join(r.sample(["A1", "A2", "A3"], 3)), "    def n(self) -> None:", "        reveal_type(super().m())", "",
+                  "def multi_%d(x: Multi) -> None:" % n, "    reveal_type(x.m())", "    reveal_type(Multi.__mro__)", "    y: A2 = x", "    z: int = x", "    print(y, z)", ""]
+    return lines
+
+
+def fam_hostile(r, n):
+    """Objects of the checked module that misbehave under introspection, annotations that raise,
+    deep nesting: the error / catch-all paths of the checker."""
+    lines = ["from typing import Any, List", ""]
+    kind = r.below(6)
+    if kind == 0:
+        what = r.choice(["__repr__", "__eq__", "__hash__", "__bool__", "__getattr__", "__len__"])
+        sig = {"__repr__": "(self) -> str", "__eq__": "(self, other: object) -> bool", "__hash__": "(self) -> int", "__bool__": "(self) -> bool", "__getattr__": "(self, name: str) -> Any", "__len__": "(self) -> int"}[what]
+        lines += ["class Grumpy:", "    def %s%s:" % (what, sig), "        raise RuntimeError(\"no %d\")" % n, "", "GRUMPY = Grumpy()", "",
+                  "def host_%d(x: int = 0) -> None:" % n, "    reveal_type(GRUMPY)", "    print(GRUMPY, x)", "    y = [GRUMPY, 1]", "    reveal_type(y)", "    if GRUMPY is None:", "        print(x)", "    d = {\"k\": GRUMPY}", "    reveal_type(d)", ""]
+    elif kind == 1:
+        lines += ["class Lazy:", "    def __class_getitem__(cls, item: object) -> object:", "        raise TypeError(\"not subscriptable %d\")" % n, "",
+                  "def host_%d(a: \"Lazy[int]\", b: \"NoSuchName_%d\", c: \"1 +\") -> None:" % (n, n), "    reveal_type(a)", "    reveal_type(b)", "    reveal_type(c)", ""]
+    elif kind == 2:
+        depth = r.randint(30, 120)
+        lines += ["DEEP = %s1%s" % ("[" * depth, "]" * depth), "",
+                  "def host_%d() -> None:" % n, "    reveal_type(DEEP)", "    x = %s0%s" % ("(" * 40, ")" * 40), "    reveal_type(x)", "    y = %s" % " + ".join(["1"] * r.randint(50, 200)), "    reveal_type(y)", ""]
+    elif kind == 3:
+        lines += ["class Prop:", "    @property", "    def boom(self) -> int:", "        raise ValueError(\"boom %d\")" % n, "", "PROP = Prop()", "",
+                  "def host_%d() -> None:" % n, "    reveal_type(PROP.boom)", "    reveal_type(PROP.missing)", "    PROP.boom = 1", ""]
+    elif kind == 4:
+        lines += ["def host_%d(v: Any, items: List[Any]) -> None:" % n, "    try:", "        raise ValueError(v)", "    except (ValueError, KeyError) as e:", "        reveal_type(e)", "    except* TypeError as eg:", "        pass", ""]
+        # `except*` mixed with `except` is a SyntaxError: keep the program valid
+        lines = [l for l in lines if "except*" not in l and l.strip() != "pass"] + [""]
+    else:
+        lines += ["import functools", "", "@functools.lru_cache(maxsize=None)", "def cached_%d(x: int) -> int:" % n, "    return x", "", "class Weird:", "    __slots__ = (\"a\",)", "    def __init__(self) -> None:", "        self.a = %d" % n, "",
+                  "def host_%d(w: Weird) -> None:" % n, "    reveal_type(cached_%d(1))" % n, "    cached_%d(\"s\")" % n, "    reveal_type(w.a)", "    w.b = 2", "    reveal_type(cached_%d.cache_info())" % n, ""]
+    return lines
+
+
 FAMILIES = {
+    "inheritance": fam_inheritance,
+    "hostile": fam_hostile,
     "alias695": fam_alias695,
     "patma": fam_patma,
     "stdlib": fam_stdlib,
